@@ -11,8 +11,8 @@ NAMES = ("p0", "p1")
 
 class DSim:
     def __init__(self, expected=(None, None), can_dilate=(("ged",), ("ged",)), half=False, app=True, max_links=4,
-                 listen_late=False, stoppable=False, ping_interval=30.0, both_write=False, sides=("aa" * 8, "bb" * 8), peer_inert=False, throttle=False):
-        self.w = DWorld(sides=sides, expected=expected, can_dilate=can_dilate, ping_interval=ping_interval)
+                 listen_late=False, stoppable=False, ping_interval=30.0, both_write=False, sides=("aa" * 8, "bb" * 8), peer_inert=False, throttle=False, no_listen=(False, False)):
+        self.w = DWorld(sides=sides, expected=expected, can_dilate=can_dilate, ping_interval=ping_interval, no_listen=no_listen)
         self.w.__enter__()
         self.w.inert = peer_inert
         self.w.net.throttle = throttle
@@ -73,9 +73,10 @@ class DSim:
                     acts.append(("data", t.link, t.end))
                     if len(t.buf[0]) > 1 and self.parts < 2:
                         acts.append(("part", t.link, t.end))
-            in_use = any(p.link == a.link for i in (0, 1) for (p, _) in w.selected(i))
-            both_connected = w.sides[0].state() == "CONNECTED" and w.sides[1].state() == "CONNECTED"
-            if self.lost_count < self.max_links - 1 and ((in_use and both_connected) or (len(live_pending) + len(live_links)) >= 2):
+            # a link in use by a side that is CONNECTED may be lost at any time (that side starts a new generation);
+            # other links only while another attempt of the generation survives (the property's proviso)
+            in_use_connected = any(p.link == a.link and w.sides[i].state() == "CONNECTED" for i in (0, 1) for (p, _) in w.selected(i))
+            if self.lost_count < self.max_links - 1 and (in_use_connected or (len(live_pending) + len(live_links)) >= 2):
                 acts.append(("lose", a.link))
         for t in w.net.closing:
             if ("lose", t.link) not in acts:
